@@ -99,6 +99,9 @@ class LoadParser(handler.ContentHandler):
             e = self.doc.fontfacedecls
         elif hasattr(self,'parent'):
             self.parent.addElement(e, check_grammar=False)
+        if e is not self.curr:                      # a section object of the document: keep the attributes of the file
+            for (att,value) in attrdict.items():
+                e.setAttrNS(att[0], att[1], value)
         self.parent = e
 
 
